@@ -24,6 +24,11 @@ Subset
                len(LIST), [], tuples, ARRAY / (int), isinstance(x, (int, np.integer)), source expressions listed in the signature
                as abstractions (`np.random`, `np.random.Generator(np.random.MT19937(x))`, `self._experiment.seed_data`)
   types        Z, bool, F (field), optZ (None or int), pyval (a Python value), list:T, prod:T,..., str
+  monadic functions (signature key "monadic"): calls / stores listed in the signature as operations ("ops": AST patterns with holes
+               _0 .., kinds pure / monadic / store) become operations of the state-and-exception monad SM W of C14_PySem.v
+               (mret / mbind / mraise / mfor); `x = A if c else B`; `if x is None` on optional values (match with the payload
+               rebound); `for ... in zip(A, B)` / `enumerate(zip(A, B))` / `range(e)`; non-empty list literals; LIST * int;
+               `return LIST[e]`
 A function without `return` must be an effect function (signature key "effect_function"): it returns (final attributes..., effects).
 """
 import ast, json, os, sys
@@ -43,9 +48,14 @@ def coq_str(s):
     return '"%s"%%string' % s.replace('"', '""')
 
 
+ATOMS = {"Z", "bool", "F", "pyval", "nat", "unit"}          # + the abstract types named in a signature ("atoms")
+
+
 def coq_type(t):
-    if t in ("Z", "bool", "F", "pyval"):
+    if t in ATOMS:
         return t
+    if t.startswith("opt:"):
+        return "(option %s)" % coq_type(t[4:])
     if t == "optZ":
         return "(option Z)"
     if t == "str":
@@ -72,8 +82,13 @@ class Fn:
         self.types = {}
         self.loop = None                                  # names of the carried variables while inside a loop body
         self.is_effect = bool(sig.get("effect_function"))
+        self.monadic = bool(sig.get("monadic"))           # the function runs in the state-and-exception monad SM W of C14_PySem.v
+        self.ops = []                                     # (pattern AST, spec): calls / expressions mapped to operations of the model
+        for spec in sig.get("ops", []):
+            self.ops.append((ast.parse(spec["pattern"], mode="eval").body, spec))
+        called = {id(n.func) for n in ast.walk(fdef) if isinstance(n, ast.Call)}
         for n in ast.walk(fdef):
-            if isinstance(n, ast.Name) and n.id in CLASH:
+            if isinstance(n, ast.Name) and n.id in CLASH and id(n) not in called:
                 n.id += "_py"
             if isinstance(n, ast.arg) and n.arg in CLASH:
                 n.arg += "_py"
@@ -98,7 +113,68 @@ class Fn:
                     return spec, n
         return None, None
 
+    def unify(self, pat, e, binds):
+        """pattern AST (holes are the names _0 .. _9) against an expression AST"""
+        if isinstance(pat, ast.Name) and len(pat.id) == 2 and pat.id[0] == "_" and pat.id[1].isdigit():
+            if pat.id in binds:
+                return ast.unparse(binds[pat.id]) == ast.unparse(e)
+            binds[pat.id] = e
+            return True
+        if type(pat) is not type(e):
+            return False
+        for f in pat._fields:
+            if f in ("ctx", "lineno", "col_offset", "end_lineno", "end_col_offset", "type_comment", "kind"):
+                continue
+            a, b = getattr(pat, f, None), getattr(e, f, None)
+            if isinstance(a, list):
+                if not isinstance(b, list) or len(a) != len(b) or not all(self.unify_any(x, y, binds) for x, y in zip(a, b)):
+                    return False
+            elif not self.unify_any(a, b, binds):
+                return False
+        return True
+
+    def unify_any(self, a, b, binds):
+        if isinstance(a, ast.AST):
+            return isinstance(b, ast.AST) and self.unify(a, b, binds)
+        return a == b
+
+    def match_op(self, e, kinds):
+        for pat, spec in self.ops:
+            if spec["kind"] not in kinds:
+                continue
+            binds = {}
+            if self.unify(pat, e, binds):
+                holes = [binds["_%d" % i] for i in range(len(spec["args"]))]
+                if spec.get("overloaded"):            # several operations share the pattern: the argument types decide
+                    saved = dict(self.types)
+                    try:
+                        self.op_call(e, spec, holes)
+                    except Unsupported:
+                        self.types = saved
+                        continue
+                    self.types = saved
+                return spec, holes
+        return None, None
+
+    def op_call(self, e, spec, holes):
+        args = []
+        for h, want in zip(holes, spec["args"]):
+            a, ta = self.expr(h)
+            if ta == "none" and want == "pyval":
+                a, ta = "VNone", "pyval"
+            if ta == "none" and want.startswith("opt:"):
+                a, ta = "None", want
+            if ta == "list:?" and want.startswith("list:"):
+                ta = want
+            if ta != want:
+                fail(e, "operation %s expects %s, got %s" % (spec["coq"], want, ta))
+            args.append(a)
+        return "(%s%s)" % (spec["coq"], "".join(" " + a for a in args)), spec["result"]
+
     def expr(self, e):
+        spec, holes = self.match_op(e, ("pure",))
+        if spec is not None:
+            return self.op_call(e, spec, holes)
         src = ast.unparse(e)
         if src in self.attrs:
             nm = self.mangle(src)
@@ -128,6 +204,8 @@ class Fn:
             b, tb = self.expr(e.right)
             if isinstance(e.op, ast.Div) and ta == "list:Z" and tb == "Z":
                 return "(np_div F %s %s)" % (a, b), "list:F"          # numpy int array / int: elementwise true division
+            if isinstance(e.op, ast.Mult) and ta.startswith("list:") and ta != "list:?" and tb == "Z":
+                return "(py_list_mul %s %s)" % (a, b), ta              # LIST * int: repetition (empty for int <= 0)
             if ta != "Z" or tb != "Z":
                 fail(e, "arithmetic on %s, %s" % (ta, tb))
             ops = {ast.Add: "+", ast.Sub: "-", ast.Mult: "*"}
@@ -155,7 +233,7 @@ class Fn:
                     a, ta = self.expr(l)
                     if not (isinstance(r, ast.Constant) and r.value is None):
                         fail(e, "is-comparison with something else than None")
-                    if ta == "optZ":
+                    if ta == "optZ" or ta.startswith("opt:"):
                         t = "(match %s with None => true | Some _ => false end)" % a
                     elif ta == "pyval":
                         t = "(py_is_none %s)" % a
@@ -179,9 +257,12 @@ class Fn:
                 return parts[0]
             return "(" + ", ".join(p for p, _ in parts) + ")", "prod:" + ",".join(t for _, t in parts)
         if isinstance(e, ast.List):
-            if e.elts:
-                fail(e, "non-empty list literal")
-            return "[]", "list:?"
+            if not e.elts:
+                return "[]", "list:?"
+            parts = [self.expr(v) for v in e.elts]
+            if any(t != parts[0][1] for _, t in parts):
+                fail(e, "list literal with mixed types")
+            return "[" + "; ".join(p for p, _ in parts) + "]", "list:" + parts[0][1]
         if isinstance(e, ast.Call) and isinstance(e.func, ast.Name):
             fn = e.func.id
             if fn == "len" and len(e.args) == 1 and not e.keywords:
@@ -204,13 +285,26 @@ class Fn:
         return "'(" + ", ".join(names) + ")" if len(names) != 1 else names[0]
 
     def finish(self, res):
-        """`res` : pyres T terminates the function"""
+        """`res` : pyres T terminates the function (pure mode)"""
         if self.loop is not None:
             return self.tup(self.loop + ["Some %s" % res])
         return res
 
+    def ret(self, v):
+        if self.monadic:
+            return "(mret (inr %s))" % v if self.loop is not None else "(mret %s)" % v
+        return self.finish("(PyVal %s)" % v)
+
     def exc(self, cls, msg):
+        if self.monadic:
+            return "(mraise %s %s)" % (coq_str(cls), coq_str(msg))
         return self.finish("(PyExc %s %s)" % (coq_str(cls), coq_str(msg)))
+
+    def fall(self, carried):
+        """the loop body reaches its end"""
+        if self.monadic:
+            return "(mret (inl %s))" % self.tup(carried) if carried else "(mret (inl tt))"
+        return self.tup(carried + ["None"])
 
     def bind(self, name, typ, node):
         if typ == "none":
@@ -262,7 +356,24 @@ class Fn:
             return True
         if isinstance(s, ast.AugAssign) and isinstance(s.target, ast.Subscript):
             return True
+        if isinstance(s, (ast.Assign, ast.Expr, ast.Return)) and s.value is not None:
+            if self.match_op(s.value, ("monadic",))[0] is not None:
+                return True
+            if isinstance(s, ast.Assign) and isinstance(s.value, ast.IfExp):
+                return True
+            if isinstance(s, ast.Assign) and len(s.targets) == 1 and self.match_store(s.targets[0])[0] is not None:
+                return True
         return False
+
+    def match_store(self, tg):
+        """an assignment TARGET that is an operation of the model (e.g. `exp.states[i] = x`): spec, holes (value is the last argument)"""
+        for pat, spec in self.ops:
+            if spec["kind"] != "store":
+                continue
+            binds = {}
+            if self.unify(pat, tg, binds):
+                return spec, [binds["_%d" % i] for i in range(len(spec["args"]) - 1)]
+        return None, None
 
     def terminates(self, stmts):
         return any(isinstance(n, (ast.Return, ast.Raise)) or self.partial(n) for s in stmts for n in ast.walk(s))
@@ -287,8 +398,18 @@ class Fn:
         if isinstance(s, ast.Return):
             if s.value is None or self.is_effect:
                 fail(s, "bare return / return in an effect function")
+            spec, holes = self.match_op(s.value, ("monadic",))
+            if spec is not None:
+                c, _ = self.op_call(s.value, spec, holes)
+                return c if self.loop is None else "(mbind %s (fun r_ => mret (inr r_)))" % c
+            if isinstance(s.value, ast.Subscript) and isinstance(s.value.value, ast.Name):
+                l, tl = self.expr(s.value.value)
+                i, ti = self.expr(s.value.slice)
+                if not tl.startswith("list:") or tl == "list:?" or ti != "Z":
+                    fail(s, "indexing %s[%s]" % (tl, ti))
+                return "match py_nth %s %s with\n  | Some v_ => %s\n  | None => %s end" % (l, i, self.ret("v_"), self.exc("IndexError", "list index out of range"))
             v, t = self.expr(s.value)
-            return self.finish("(PyVal %s)" % v)
+            return self.ret(v)
         if isinstance(s, ast.Raise):
             if not (isinstance(s.exc, ast.Call) and isinstance(s.exc.func, ast.Name) and len(s.exc.args) == 1 and not s.exc.keywords and s.cause is None):
                 fail(s, "raise form")
@@ -297,6 +418,26 @@ class Fn:
             if len(s.targets) != 1:
                 fail(s, "multiple targets")
             tg = s.targets[0]
+            sspec, sholes = self.match_store(tg)
+            if sspec is not None:
+                if not self.monadic:
+                    fail(s, "store operation outside a monadic function")
+                c, _ = self.op_call(s, sspec, sholes + [s.value])
+                return "(mbind %s (fun _ =>\n  %s))" % (c, cont())
+            if isinstance(s.value, ast.IfExp):
+                # x = A if c else B   ==   if c: x = A else: x = B
+                fake = ast.If(test=s.value.test, body=[ast.Assign(targets=[tg], value=s.value.body)], orelse=[ast.Assign(targets=[tg], value=s.value.orelse)])
+                for n in ast.walk(fake):
+                    ast.copy_location(n, s)
+                ast.fix_missing_locations(fake)
+                return self.stmts([fake] + rest, k)
+            mspec, mholes = self.match_op(s.value, ("monadic",))
+            if mspec is not None:
+                if not self.monadic or not isinstance(tg, ast.Name):
+                    fail(s, "monadic operation outside a monadic function / into a non-variable")
+                c, t = self.op_call(s.value, mspec, mholes)
+                self.bind(tg.id, t, s)
+                return "(mbind %s (fun %s =>\n  %s))" % (c, tg.id, cont())
             if isinstance(tg, ast.Attribute) and ast.unparse(tg) in self.attrs:
                 name = self.mangle(ast.unparse(tg))
             elif isinstance(tg, ast.Name):
@@ -324,6 +465,8 @@ class Fn:
                 return "match py_zeros %s with\n  | Some v_ => let %s := v_ in\n  %s\n  | None => %s end" % (
                     m, name, cont(), self.exc("ValueError", "negative dimensions are not allowed"))
             v, t = self.expr(s.value)
+            if t == "none" and self.sig.get("var_types", {}).get(name) == "pyval":
+                v, t = "VNone", "pyval"
             if t == "none":
                 v = "(@None Z)"
             if t == "Z" and self.types.get(name) == "optZ":
@@ -356,6 +499,12 @@ class Fn:
                 elif lt != "list:" + t:
                     fail(s, "append of %s to %s" % (t, lt))
                 return "let %s := (%s ++ [%s]) in\n  %s" % (lst, lst, v, cont())
+            mspec, mholes = self.match_op(c, ("monadic",))
+            if mspec is not None:
+                if not self.monadic:
+                    fail(s, "monadic operation outside a monadic function")
+                cc, _ = self.op_call(c, mspec, mholes)
+                return "(mbind %s (fun _ =>\n  %s))" % (cc, cont())
             spec, hole = self.hole_match(c, self.effects)
             if spec is not None and hole is not None:
                 a, ta = self.expr(hole)
@@ -365,6 +514,32 @@ class Fn:
                     fail(s, "effect argument of type %s" % ta)
                 return "let effs_ := (effs_ ++ [%s %s]) in\n  %s" % (spec, a, cont())
             fail(s, "call statement %s" % ast.unparse(c)[:60])
+        if isinstance(s, ast.If) and isinstance(s.test, ast.Compare) and len(s.test.ops) == 1 and isinstance(s.test.ops[0], (ast.Is, ast.IsNot)) \
+                and isinstance(s.test.left, ast.Name) and str(self.types.get(s.test.left.id, "")).startswith("opt:") \
+                and isinstance(s.test.comparators[0], ast.Constant) and s.test.comparators[0].value is None:
+            # `if x is None:` / `if x is not None:` on an optional value: inside the not-None branch x IS the payload
+            import copy as _copy
+            x = s.test.left.id
+            self.fresh = getattr(self, "fresh", 0) + 1
+            xv = "%s_v%d" % (x, self.fresh)
+            topt = self.types[x]
+            some_b, none_b = (list(s.orelse), s.body) if isinstance(s.test.ops[0], ast.Is) else (s.body, list(s.orelse))
+            some_b = [_copy.deepcopy(st) for st in some_b]
+            for st in some_b:
+                for n in ast.walk(st):
+                    if isinstance(n, ast.Name) and n.id == x:
+                        if isinstance(n.ctx, ast.Store):
+                            fail(s, "assignment to %s inside its not-None branch" % x)
+                        n.id = xv
+            saved = dict(self.types)
+            self.types[xv] = topt[4:]
+            if xv in saved:
+                fail(s, "name clash %s" % xv)
+            a = self.stmts(some_b + rest, k)
+            self.types = dict(saved)
+            b = self.stmts(list(none_b) + rest, k)
+            self.types = saved
+            return "match %s with\n  | Some %s =>\n  %s\n  | None =>\n  %s end" % (x, xv, a, b)
         if isinstance(s, ast.If):
             c, tc = self.expr(s.test)
             if tc != "bool":
@@ -398,7 +573,21 @@ class Fn:
         if isinstance(s, ast.For):
             if s.orelse or self.loop is not None:
                 fail(s, "for-else / nested loop")
-            if isinstance(s.iter, ast.Call) and isinstance(s.iter.func, ast.Name) and s.iter.func.id == "enumerate" and len(s.iter.args) == 1 and not s.iter.keywords:
+            if isinstance(s.iter, ast.Call) and isinstance(s.iter.func, ast.Name) and s.iter.func.id == "enumerate" and len(s.iter.args) == 1 and not s.iter.keywords \
+                    and isinstance(s.iter.args[0], ast.Call) and isinstance(s.iter.args[0].func, ast.Name) and s.iter.args[0].func.id == "zip" \
+                    and len(s.iter.args[0].args) == 2 and not s.iter.args[0].keywords:
+                z = s.iter.args[0]
+                a_, ta_ = self.expr(z.args[0]); b_, tb_ = self.expr(z.args[1])
+                if not (ta_.startswith("list:") and tb_.startswith("list:") and "?" not in ta_ + tb_):
+                    fail(s, "zip of %s, %s" % (ta_, tb_))
+                tg_ = s.target
+                if not (isinstance(tg_, ast.Tuple) and len(tg_.elts) == 2 and isinstance(tg_.elts[0], ast.Name) and isinstance(tg_.elts[1], ast.Tuple)
+                        and len(tg_.elts[1].elts) == 2 and all(isinstance(x, ast.Name) for x in tg_.elts[1].elts)):
+                    fail(s, "loop target")
+                it = "(combine (map Z.of_nat (seq 0 (length (combine %s %s)))) (combine %s %s))" % (a_, b_, a_, b_)
+                lv = [(tg_.elts[0].id, "Z"), (tg_.elts[1].elts[0].id, ta_[5:]), (tg_.elts[1].elts[1].id, tb_[5:])]
+                lpat = "'(%s, (%s, %s))" % (lv[0][0], lv[1][0], lv[2][0])
+            elif isinstance(s.iter, ast.Call) and isinstance(s.iter.func, ast.Name) and s.iter.func.id == "enumerate" and len(s.iter.args) == 1 and not s.iter.keywords:
                 l, tl = self.expr(s.iter.args[0])
                 if not (tl.startswith("list:") and tl != "list:?"):
                     fail(s, "enumerate of %s" % tl)
@@ -406,6 +595,22 @@ class Fn:
                     fail(s, "loop target")
                 it = "(combine (map Z.of_nat (seq 0 (length %s))) %s)" % (l, l)
                 lv = [(s.target.elts[0].id, "Z"), (s.target.elts[1].id, tl[5:])]
+                lpat = "'(%s, %s)" % (lv[0][0], lv[1][0])
+            elif isinstance(s.iter, ast.Call) and isinstance(s.iter.func, ast.Name) and s.iter.func.id == "range" and len(s.iter.args) == 1 and not s.iter.keywords:
+                n_, tn = self.expr(s.iter.args[0])
+                if tn != "Z" or not isinstance(s.target, ast.Name):
+                    fail(s, "range loop")
+                it = "(map Z.of_nat (seq 0 (Z.to_nat %s)))" % n_
+                lv = [(s.target.id, "Z")]
+                lpat = s.target.id
+            elif isinstance(s.iter, ast.Call) and isinstance(s.iter.func, ast.Name) and s.iter.func.id == "zip" and len(s.iter.args) == 2 and not s.iter.keywords:
+                a_, ta_ = self.expr(s.iter.args[0]); b_, tb_ = self.expr(s.iter.args[1])
+                if not (ta_.startswith("list:") and tb_.startswith("list:") and "?" not in ta_ + tb_):
+                    fail(s, "zip of %s, %s" % (ta_, tb_))
+                if not (isinstance(s.target, ast.Tuple) and len(s.target.elts) == 2 and all(isinstance(x, ast.Name) for x in s.target.elts)):
+                    fail(s, "loop target")
+                it = "(combine %s %s)" % (a_, b_)
+                lv = [(s.target.elts[0].id, ta_[5:]), (s.target.elts[1].id, tb_[5:])]
                 lpat = "'(%s, %s)" % (lv[0][0], lv[1][0])
             else:
                 l, tl = self.expr(s.iter)
@@ -423,12 +628,16 @@ class Fn:
                 for n, t in lv:
                     self.types[n] = t
                 self.loop = carried
-                body = self.stmts(s.body, lambda: self.tup(carried + ["None"]))
+                body = self.stmts(s.body, lambda: self.fall(carried))
                 self.loop = None
                 for v in carried:
                     outer[v] = self.types[v]
             self.types = outer
             after = cont()
+            if self.monadic:
+                cpat = self.pat(carried) if carried else "_"
+                return ("(mbind (mfor %s %s (fun %s %s =>\n    %s))\n  (fun r_ => match r_ with\n  | inl %s =>\n  %s\n  | inr v_ => mret v_ end))"
+                        % (it, self.tup(carried) if carried else "tt", cpat, lpat, body, cpat, after))
             return ("let %s := fold_left (fun %s %s =>\n    match fin_ with Some _ => %s | None =>\n    %s end)\n    %s %s in\n  match fin_ with Some r_ => r_ | None =>\n  %s end"
                     % (self.pat(names), self.pat(names), lpat, self.tup(names), body, it, self.tup(carried + ["None"]), after))
         fail(s, "statement")
@@ -454,6 +663,8 @@ class Fn:
         for src, spec in self.abstr.items():
             if len(spec) > 3 and spec[3] == "param":          # an abstraction that is an input of the model (e.g. another object's attribute)
                 params.append((spec[0], spec[1]))
+        for n, t in self.sig.get("extra_params", []):
+            self.types[n] = t
         if self.is_effect:
             self.types["effs_"] = "list:eff"
             res = [self.mangle(a) for a in self.attrs] + ["effs_"]
@@ -461,6 +672,8 @@ class Fn:
             body = "let effs_ := ([] : list eff) in\n  " + self.stmts(f.body, end)
         else:
             body = self.stmts(f.body, lambda: fail(f, "function falls off its end"))
+        for n, t in self.sig.get("extra_params", []):
+            params.append((n, t))
         ret = self.sig.get("returns")
         return "Definition %s %s%s :=\n  %s." % (self.sig["coq_name"], " ".join("(%s : %s)" % (n, coq_type(t)) for n, t in params),
                                                  " : " + ret if ret else "", body)
@@ -469,7 +682,7 @@ class Fn:
 HEADER = """(* GENERATED by /verif/gen/c14_py2coq.py from the repository's CURRENT source - do not edit, not committed. *)
 From Coq Require Import String ZArith List Bool.
 From QV.Core Require Import OF.
-From QV.Model Require Import C14_DataGen C14_PySem.
+From QV.Model Require Import C14_DataGen C14_PySem C14_Streams.
 Import ListNotations.
 Section Gen.
 Context (F : OF).
@@ -496,7 +709,12 @@ def find_def(tree, entry):
 def main():
     repo, sigfile, outpath = sys.argv[1], sys.argv[2], sys.argv[3]
     table = json.load(open(sigfile))
-    out = [HEADER]
+    context = ""
+    if isinstance(table, dict):
+        ATOMS.update(table.get("atoms", []))
+        context = table.get("context", "")
+        table = table["functions"]
+    out = [HEADER + context]
     try:
         for entry in table:
             src = open(os.path.join(repo, entry["file"])).read()
